@@ -108,21 +108,40 @@ impl Director {
     }
 }
 
-/// pids that currently sleep in flock(2) / fcntl lock waits.
-pub fn flock_waiters() -> BTreeSet<u32> {
-    let mut out = BTreeSet::new();
+/// Processes that currently sleep in flock(2) / fcntl lock waits: waiter pid ->
+/// pid of the holder it waits for (0 if the holder line is not understood).
+pub fn flock_wait_map() -> BTreeMap<u32, u32> {
+    let mut out = BTreeMap::new();
     if let Ok(t) = std::fs::read_to_string("/proc/locks") {
+        // "3: FLOCK ADVISORY WRITE 1200 fe:00:99 0 EOF"      the lock
+        // "3: -> FLOCK ADVISORY WRITE 1234 fe:00:99 0 EOF"   a process waiting for it
+        let mut holder: BTreeMap<&str, u32> = BTreeMap::new();
         for l in t.lines() {
             let tok: Vec<&str> = l.split_whitespace().collect();
-            // "3: -> FLOCK ADVISORY WRITE 1234 fe:00:99 0 EOF"
-            if tok.get(1) == Some(&"->")
-                && let Some(pid) = tok.get(5).and_then(|x| x.parse::<u32>().ok())
-            {
-                out.insert(pid);
+            let Some(id) = tok.first() else { continue };
+            if tok.get(1) == Some(&"->") {
+                if let Some(pid) = tok.get(5).and_then(|x| x.parse::<u32>().ok()) {
+                    out.insert(pid, holder.get(id).copied().unwrap_or(0));
+                }
+            } else if let Some(pid) = tok.get(4).and_then(|x| x.parse::<u32>().ok()) {
+                holder.insert(id, pid);
             }
         }
     }
     out
+}
+
+pub fn flock_waiters() -> BTreeSet<u32> {
+    flock_wait_map().into_keys().collect()
+}
+
+/// utime + stime (clock ticks) of a process, from /proc/<pid>/stat.
+pub fn cpu_ticks(pid: u32) -> Option<u64> {
+    let t = std::fs::read_to_string(format!("/proc/{pid}/stat")).ok()?;
+    // fields after the ")" that ends the command name: state is #3, utime #14, stime #15
+    let rest = &t[t.rfind(')')? + 1..];
+    let f: Vec<&str> = rest.split_whitespace().collect();
+    Some(f.get(11)?.parse::<u64>().ok()? + f.get(12)?.parse::<u64>().ok()?)
 }
 
 /// Is /proc/locks usable (readable and showing flock holders)?
